@@ -92,7 +92,7 @@ def body_fit(case):
     B0 = B.copy()
     X, Bp = run_fit(sv, (gens.as_form(B, case["form"]) if case.get("form") else B), Wcall, entry, opt)
     if np.ndim(X) == 2 and np.shape(X)[0] == B.shape[0]:
-        pairs = rows_sharing_a_solution(B, X, sv.lb, sv.ub, sv.Ap)
+        pairs = rows_sharing_a_solution(B, X, sv.lb, sv.ub, sv.Ap, scale=sv.extent)
         check(not pairs, "fit:rows-share-a-solution", f"rows {pairs} have different targets but bit-identical intensities")
     labs = sv.labels() + [f"entry:{entry}", f"acc:{acc}", "W:" + ("none" if W is None else ("inverse" if isinstance(Wcall, str) else ("vector" if np.ndim(W) == 1 else "matrix")))] + (["proportional-sources"] if case.get("proportional") else [])
     check(np.array_equal(B, B0), "fit:targets-modified", "fit modified the caller's target array")
